@@ -1,9 +1,229 @@
-(* The translator tie for the orientation test of convex_hull: the definition regenerated from
-   the working tree equals the model's [cross] for ALL arguments.  Compiled on every run against
-   the fresh HullGen.v. *)
+(* The translator tie for C10: the definitions regenerated from the working tree
+   (_geometry.coordinate_vector_cross_product, _geometry.convex_hull with its sort key, the condition / pop / iteration
+   of both monotone-chain loops, the Multi*.convex_hull and CollectionBase.convex_hull callers) equal the model of
+   HullM.v for ALL arguments.  Compiled on every run against the fresh HullGen.v.
+
+   A Python list is the Coq list in the same order in HullGen.v; the model keeps its stack with the top at the head.
+   The loop lemmas therefore relate a generated stack [rev st] to the model stack [st]. *)
 From GV Require Import Prelude HullM.
 From GVgen Require Import HullGen.
 Open Scope Z_scope.
 
 Lemma geq_cross : forall o a b, g_cross o a b = cross o a b.
 Proof. intros. unfold g_cross, cross. ring. Qed.
+
+(* ---- sorted(set(...), key=...) ------------------------------------------------------------------------------ *)
+(* the key is the pair (longitude, latitude) itself: injective, and Python's tuple order on keys is the model's order *)
+Lemma geq_hull_key : forall x, g_convex_hull_key x = x.
+Proof. intros [a b]. reflexivity. Qed.
+
+Lemma geq_hull_key_order : forall a b, py_lex_ltb (g_convex_hull_key a) (g_convex_hull_key b) = pt_ltb a b.
+Proof. intros [a1 a2] [b1 b2]. reflexivity. Qed.
+
+Lemma geq_hull_sorted_set : forall l, py_sorted_set g_convex_hull_key l = dedup_sort l.
+Proof.
+  assert (Hi : forall p l, py_insert_by g_convex_hull_key p l = insert p l).
+  { intros p l. induction l as [|q l IH]; cbn [py_insert_by insert]; [reflexivity|].
+    destruct p as [p1 p2], q as [q1 q2]. change (py_lex_ltb (g_convex_hull_key (p1, p2)) (g_convex_hull_key (q1, q2)))
+      with (pt_ltb (p1, p2) (q1, q2)). rewrite IH. reflexivity. }
+  intros l. unfold py_sorted_set, dedup_sort. induction l as [|p l IH]; cbn [fold_right]; [reflexivity|].
+  rewrite IH. apply Hi.
+Qed.
+
+(* ---- the stack loops, generically ----------------------------------------------------------------------------- *)
+(* what the model's pop_while tests and does, on the model stack (top at the head) *)
+Definition m_cond (c : pt) (st : list pt) : bool :=
+  match st with b :: a :: _ => cross a b c <=? 0 | _ => false end.
+
+(* the model's structurally recursive pop_while IS the while loop with condition m_cond and body tl *)
+Lemma pop_while_unfold : forall c st, pop_while c st = if m_cond c st then pop_while c (tl st) else st.
+Proof. intros c [|b [|a st]]; reflexivity. Qed.
+
+Lemma pop_while_exit : forall c st, m_cond c (pop_while c st) = false.
+Proof.
+  intros c st. induction st as [|b st IH]; [reflexivity|].
+  destruct st as [|a st]; [reflexivity|]. cbn [pop_while].
+  destruct (cross a b c <=? 0) eqn:E; [exact IH|]. cbn. exact E.
+Qed.
+
+Lemma neg_index_1 : forall l b, py_neg_index (l ++ [b]) 1 = b.
+Proof.
+  intros. unfold py_neg_index. rewrite app_length. cbn [length].
+  replace (length l + 1 - 1)%nat with (length l) by lia.
+  rewrite app_nth2 by lia. rewrite Nat.sub_diag. reflexivity.
+Qed.
+
+Lemma neg_index_2 : forall l a b, py_neg_index ((l ++ [a]) ++ [b]) 2 = a.
+Proof.
+  intros. unfold py_neg_index. rewrite !app_length. cbn [length].
+  replace (length l + 1 + 1 - 2)%nat with (length l) by lia.
+  rewrite <- app_assoc. rewrite app_nth2 by lia. rewrite Nat.sub_diag. reflexivity.
+Qed.
+
+Section StackLoop.
+  Variable cond : pt -> list pt -> bool.
+  Variable step : pt -> list pt -> list pt.
+  Hypothesis Hcond : forall c st, cond c (rev st) = m_cond c st.
+  Hypothesis Hstep : forall c st, step c (rev st) = rev (tl st).
+
+  Lemma sl_while : forall c n st, (length st <= n)%nat ->
+    py_while (cond c) (step c) n (rev st) = rev (pop_while c st).
+  Proof.
+    intros c n. induction n as [|n IH]; intros st Hn.
+    - destruct st; [reflexivity|cbn in Hn; lia].
+    - cbn [py_while]. rewrite Hcond, (pop_while_unfold c st).
+      destruct (m_cond c st) eqn:E; [|reflexivity].
+      rewrite Hstep. apply IH. destruct st; cbn in *; lia.
+  Qed.
+
+  (* the fuel [length lower] is never exhausted early: the condition is false when py_while stops *)
+  Lemma sl_exit : forall c lower,
+    cond c (py_while (cond c) (step c) (length lower) lower) = false.
+  Proof.
+    intros c lower. rewrite <- (rev_involutive lower). rewrite rev_length, sl_while by (rewrite rev_length; lia).
+    rewrite Hcond. apply pop_while_exit.
+  Qed.
+
+  Variable body : list pt -> pt -> list pt.
+  Hypothesis Hbody : forall lower c,
+    body lower c = py_append (py_while (cond c) (step c) (length lower) lower) c.
+
+  Lemma sl_body : forall st c, body (rev st) c = rev (push st c).
+  Proof.
+    intros. rewrite Hbody, rev_length, sl_while by lia. unfold py_append, push. reflexivity.
+  Qed.
+
+  Lemma sl_fold : forall l st, fold_left body l (rev st) = rev (fold_left push l st).
+  Proof.
+    induction l as [|x l IH]; intros st; cbn [fold_left]; [reflexivity|].
+    rewrite sl_body. apply IH.
+  Qed.
+
+  Lemma sl_chain : forall l, fold_left body l [] = chain l.
+  Proof. intros. exact (sl_fold l []). Qed.
+
+End StackLoop.
+
+Lemma cond_generic : forall (f : pt -> list pt -> bool),
+  (forall c l, f c l = ((2 <=? py_len l) && (g_cross (py_neg_index l 2) (py_neg_index l 1) c <=? 0))) ->
+  forall c st, f c (rev st) = m_cond c st.
+Proof.
+  intros f Hf c st. rewrite Hf. destruct st as [|b [|a st]]; cbn [rev app m_cond].
+  - reflexivity.
+  - reflexivity.
+  - rewrite neg_index_1, neg_index_2, geq_cross. unfold py_len. rewrite !app_length. cbn [length].
+    replace (2 <=? Z.of_nat (length (rev st) + 1 + 1)) with true by lia. reflexivity.
+Qed.
+
+Lemma step_generic : forall st : list pt, py_pop (rev st) = rev (tl st).
+Proof. intros [|b st]; [reflexivity|]. cbn [rev tl]. unfold py_pop. apply removelast_last. Qed.
+
+(* ---- the lower loop ----------------------------------------------------------------------------------------------- *)
+(* while len(lower) >= 2 and cross(lower[-2], lower[-1], coord) <= 0   ==  the test pop_while makes *)
+Lemma geq_hull_lower_cond : forall c st, g_convex_hull_lower_cond c (rev st) = m_cond c st.
+Proof. apply cond_generic. reflexivity. Qed.
+
+(* lower.pop()  ==  dropping the head of the model stack *)
+Lemma geq_hull_lower_step : forall c st, g_convex_hull_lower_step c (rev st) = rev (tl st).
+Proof. intros. apply step_generic. Qed.
+
+Lemma geq_hull_lower_while : forall c st,
+  py_while (g_convex_hull_lower_cond c) (g_convex_hull_lower_step c) (length (rev st)) (rev st) = rev (pop_while c st).
+Proof.
+  intros. apply (sl_while _ _ geq_hull_lower_cond geq_hull_lower_step). rewrite rev_length. lia.
+Qed.
+
+Lemma geq_hull_lower_while_exit : forall c lower,
+  g_convex_hull_lower_cond c
+    (py_while (g_convex_hull_lower_cond c) (g_convex_hull_lower_step c) (length lower) lower) = false.
+Proof. intros. apply (sl_exit _ _ geq_hull_lower_cond geq_hull_lower_step). Qed.
+
+(* one iteration of `for coord in coordinates`: the pops, then the append  ==  HullM.push *)
+Lemma geq_hull_lower_body : forall st c, g_convex_hull_lower_body (rev st) c = rev (push st c).
+Proof.
+  intros. apply (sl_body _ _ geq_hull_lower_cond geq_hull_lower_step). reflexivity.
+Qed.
+
+(* ---- the upper loop ----------------------------------------------------------------------------------------------- *)
+Lemma geq_hull_upper_cond : forall c st, g_convex_hull_upper_cond c (rev st) = m_cond c st.
+Proof. apply cond_generic. reflexivity. Qed.
+
+Lemma geq_hull_upper_step : forall c st, g_convex_hull_upper_step c (rev st) = rev (tl st).
+Proof. intros. apply step_generic. Qed.
+
+Lemma geq_hull_upper_while : forall c st,
+  py_while (g_convex_hull_upper_cond c) (g_convex_hull_upper_step c) (length (rev st)) (rev st) = rev (pop_while c st).
+Proof.
+  intros. apply (sl_while _ _ geq_hull_upper_cond geq_hull_upper_step). rewrite rev_length. lia.
+Qed.
+
+Lemma geq_hull_upper_while_exit : forall c upper,
+  g_convex_hull_upper_cond c
+    (py_while (g_convex_hull_upper_cond c) (g_convex_hull_upper_step c) (length upper) upper) = false.
+Proof. intros. apply (sl_exit _ _ geq_hull_upper_cond geq_hull_upper_step). Qed.
+
+Lemma geq_hull_upper_body : forall st c, g_convex_hull_upper_body (rev st) c = rev (push st c).
+Proof.
+  intros. apply (sl_body _ _ geq_hull_upper_cond geq_hull_upper_step). reflexivity.
+Qed.
+
+(* ---- the whole function --------------------------------------------------------------------------------------- *)
+(* sort + dedup, the <= 1 early return, both loops (the second over reversed(coordinates)), lower[:-1] + upper *)
+Lemma geq_convex_hull : forall l, g_convex_hull l = hull l.
+Proof.
+  intros l. unfold g_convex_hull, hull. rewrite geq_hull_sorted_set.
+  generalize (dedup_sort l) as s. intros s.
+  rewrite (sl_chain _ _ geq_hull_lower_cond geq_hull_lower_step g_convex_hull_lower_body (fun _ _ => eq_refl)).
+  rewrite (sl_chain _ _ geq_hull_upper_cond geq_hull_upper_step g_convex_hull_upper_body (fun _ _ => eq_refl)).
+  destruct s as [|x [|y s]]; [reflexivity|reflexivity|].
+  unfold hull_sorted, py_pop.
+  replace (py_len (x :: y :: s) <=? 1) with false by (unfold py_len; cbn [length]; lia).
+  reflexivity.
+Qed.
+
+(* ---- the callers -------------------------------------------------------------------------------------------------- *)
+(* MultiGeoLineString.convex_hull: a member is observed as the list shape.vertices *)
+Lemma geq_mline_hull : forall ms, g_mline_hull ms = hull_of_members ms.
+Proof.
+  intros. unfold g_mline_hull, hull_of_members, geoshapes_of, member_pts. rewrite geq_convex_hull.
+  rewrite flat_map_concat_map, map_id. reflexivity.
+Qed.
+
+(* MultiGeoPolygon.convex_hull: a member is observed as the list shape.bounding_coords(kwargs passed through) *)
+Lemma geq_mpoly_hull : forall ms, g_mpoly_hull ms = hull_of_members ms.
+Proof.
+  intros. unfold g_mpoly_hull, hull_of_members, geoshapes_of, member_pts. rewrite geq_convex_hull.
+  rewrite flat_map_concat_map, map_id. reflexivity.
+Qed.
+
+(* MultiGeoPoint.convex_hull: a member is observed as its centroid; it contributes that one point *)
+Lemma geq_mpoint_hull : forall ps, g_mpoint_hull ps = hull_of_members (map (fun p => [p]) ps).
+Proof.
+  intros. unfold g_mpoint_hull, hull_of_members, geoshapes_of, member_pt. rewrite geq_convex_hull, map_id.
+  replace (concat (map (fun p : pt => [p]) ps)) with ps; [reflexivity|].
+  induction ps as [|p ps IH]; cbn; [reflexivity|]. rewrite <- IH. reflexivity.
+Qed.
+
+(* CollectionBase.convex_hull / _get_vertices: what one member contributes, written independently of the source:
+   a multi-shape the contributions of its parts in order, a point its centroid, a line its vertices, a polygon its
+   bounding_coords(), anything else nothing; MultiShapeBase is tested first. *)
+Fixpoint spec_vertices (m : gmember) : list pt :=
+  match m with
+  | GMulti parts => flat_map spec_vertices parts
+  | GPoint c => [c]
+  | GLine vs => vs
+  | GPoly bc => bc
+  | GOther => []
+  end.
+
+Lemma geq_get_vertices_1 : forall m, g_get_vertices_1 m = spec_vertices m.
+Proof.
+  fix IH 1. intros [parts|c|vs|bc|]; cbn [g_get_vertices_1 spec_vertices gm_bounding]; try reflexivity.
+  induction parts as [|p parts IHp]; cbn [flat_map]; [reflexivity|]. rewrite IH, IHp. reflexivity.
+Qed.
+
+Lemma geq_coll_hull : forall ms, g_coll_hull ms = hull_of_members (map spec_vertices ms).
+Proof.
+  intros. unfold g_coll_hull, hull_of_members, geoshapes_of. rewrite geq_convex_hull, flat_map_concat_map.
+  do 3 f_equal. apply map_ext. exact geq_get_vertices_1.
+Qed.
